@@ -2,6 +2,7 @@ import OV.Lemmas.C01Live
 import OV.Lemmas.C01Names
 import OV.Lemmas.C01Sim
 import OV.Lemmas.C01SimIf
+import OV.Lemmas.C01SimFor
 /-!
 # C01 — script functions mean the same eagerly, as an ONNX graph, and as plain Python
 
@@ -169,6 +170,72 @@ example : ifLine ifDemo.body = true ∧ (convert ifDemo).toOption.isSome = true
     ∧ evalFunc Sdemo 0 ifDemo [4, 7, 0, 1] = some [5, 5]
     ∧ evalFunc Sdemo 0 ifDemo [4, 5, 1, 0] = some [0, 5] := by
   refine ⟨by decide, by decide +kernel, by decide +kernel, by decide +kernel, by decide +kernel⟩
+
+/-! ### The refinement, third stage: `for i in range(n)` -/
+
+/-- **`convert_correct`, stage 3 (assignments, nested `if`/`else`, and `for i in range(n)` loops).**  For every
+function whose body consists of statements of the `if` fragment (see `convert_correct_ite_partial`) and
+top-level loops `for i in range(<expr>): <if-fragment body>` — the body may re-assign outer variables
+(loop-carried state), read outer values it never assigns (captured), branch on them, and run zero times —
+followed by `return e1, …, en`: whenever the model converter accepts it and reading the source as plain
+Python yields `vs`, the emitted graph — a `Loop` node whose body graph takes `(i, cond_in, state…)`, re-emits
+`cond_out = Identity(cond_in)`, and whose state is `assigned ∩ (exposed uses ∪ live_out)` in sorted order —
+evaluates to exactly `vs` at some fuel (hence at every larger one: `evalNodes_mono`), for **every** input,
+trip count and operator meaning (`Constant` total, `Identity` the identity, `true` is truthy).
+The proof is a simulation by induction on the remaining trip count with the invariant of stage 2
+(`OV.C01.Inv`) re-established at the head of every iteration (`OV.C01.for_step`).
+Side conditions (`forOK`), each needed for the code as it is: the loop variable is not read after the loop
+(C01-D31: the converter leaves it bound to the body-local name, the statement is false without this) and not
+assigned in the body; the liveness iteration reached its fixpoint (`stableStmt`; the real analysis iterates
+until it does).
+`_partial`: no `break` (C01-D27 refutes `while`+`break`; `for`+`break` is untested by proof), no `while`, no loop
+nested in a loop or in a branch, no tuple assignment, no attribute parameters. -/
+theorem convert_correct_for_partial {V : Type} (S : Sem V)
+    (hConst : ∀ l, ∃ c, constOf S l = some c)
+    (hId : ∀ v, S.op "" "Identity" [some v] [] = some [v])
+    (hT : S.truth (S.ofBool true) = some true)
+    (f : Func) (g : Graph) (hfl : forLine f.body = true) (hten : AllTensorParams f.params)
+    (hnames : (f.params.map Param.name).Nodup) (h : convert f = .ok g)
+    (fuel : Nat) (args vs : List V) (he : evalFunc S fuel f args = some vs) :
+    ∃ fuel', evalGraph S fuel' g args = some vs :=
+  convert_correct_for S hConst hId hT hfl hten hnames h he
+
+/-- Graph evaluation is monotone in the fuel, so "some fuel" above means "every large enough fuel". -/
+theorem evalGraph_fuel_mono {V : Type} (S : Sem V) (g : Graph) (args vs : List V) (f f' : Nat) (hle : f ≤ f')
+    (h : evalGraph S f g args = some vs) : evalGraph S f' g args = some vs := by
+  unfold evalGraph at h ⊢
+  by_cases hl : args.length = g.inputs.length
+  · simp only [hl, if_true] at h ⊢
+    cases he : evalNodes S f (Env.setMany (fun _ => none) g.inputs args) g.nodes with
+    | none => simp [he] at h
+    | some r =>
+      rw [evalNodes_mono S g.nodes f f' _ r hle he]
+      simpa [he] using h
+  · simp [hl] at h
+
+/-- Non-vacuity: `acc = A; t = B; for i in range(n): (if c: acc = acc + t  else: t = acc + i); return acc, t` —
+two loop-carried variables each re-assigned in one branch only, a captured outer value `c`, the loop
+variable read in the body; run with three trips on either branch and with zero trips. -/
+def forDemo : Func :=
+  { name := "f", params := [.tensor "A", .tensor "B", .tensor "n", .tensor "c"], retCount := none,
+    body := [
+      .assign "acc" (.var "A"),
+      .assign "t" (.var "B"),
+      .for_ "i" true (.var "n")
+        [.ite (.var "c")
+          [.assign "acc" (.binop "Add" (.var "acc") (.var "t"))]
+          [.assign "t" (.binop "Add" (.var "acc") (.var "i"))]],
+      .ret [.var "acc", .var "t"] false] }
+
+example : forLine forDemo.body = true ∧ (convert forDemo).toOption.isSome = true
+    ∧ evalFunc Sdemo 0 forDemo [1, 10, 3, 1] = some [31, 10]
+    ∧ evalFunc Sdemo 0 forDemo [1, 10, 3, 0] = some [1, 3]
+    ∧ evalFunc Sdemo 0 forDemo [1, 10, 0, 1] = some [1, 10]
+    ∧ (match convert forDemo with
+       | .ok g => evalGraph Sdemo 6 g [1, 10, 3, 0] == some [1, 3]
+       | .error _ => false) = true := by
+  refine ⟨by decide +kernel, by decide +kernel, by decide +kernel, by decide +kernel, by decide +kernel,
+    by decide +kernel⟩
 
 /-! ### Regression witnesses of the two fixed findings C01-D23 (4304e8f) and C01-D25 (87ad64d) -/
 
